@@ -153,7 +153,10 @@ Inductive entry_input :=
 | EUnmarshal (msgtype len : N)
 | EConnect (len : N)
 | EE2EInbound (has_registry : bool) (cls : e2e_class)
-| EE2EOutbound (has_registry : bool) (cls : e2e_class).
+| EE2EOutbound (has_registry : bool) (cls : e2e_class)
+(* several hostile hosts at once for a while: handshake streams opened and abandoned, a registered
+   peer repeating valid handshakes, unregistered peers opening protocol streams *)
+| EE2EStress (has_registry : bool).
 
 (* ---- where the Go code panics ---------------------------------------------------------------------- *)
 
@@ -201,6 +204,7 @@ Definition panics_gen (f : fixes) (i : entry_input) : bool :=
   | EConnect _ => false
   | EE2EInbound reg cls => negb (f_metrics f) && negb reg && e2e_fails cls
   | EE2EOutbound reg cls => negb (f_metrics f) && negb reg && e2e_fails cls
+  | EE2EStress reg => negb (f_metrics f) && negb reg     (* the abandoned handshakes fail *)
   end.
 
 Definition panics : entry_input -> bool := panics_gen fixes_now.
@@ -229,7 +233,7 @@ Definition expected_result (i : entry_input) : option N :=
   | EReadHeader (FOversized | FTruncated | FEof) => Some 1
   (* end to end the result class is the liveness probe: after the hostile exchange an honest
      peer still completes its handshake and is registered (0) *)
-  | EE2EInbound _ _ | EE2EOutbound _ _ => Some 0
+  | EE2EInbound _ _ | EE2EOutbound _ _ | EE2EStress _ => Some 0
   | _ => None
   end.
 
@@ -252,6 +256,7 @@ Definition entry_name (i : entry_input) : string :=
   | EConnect _ => "connect-underlay"
   | EE2EInbound _ _ => "e2e-inbound-handshake"
   | EE2EOutbound _ _ => "e2e-outbound-handshake"
+  | EE2EStress _ => "e2e-stress"
   end%string.
 
 (* the clause key of an observed panic: the three repaired defects keep the key under which they
@@ -282,4 +287,5 @@ Definition hostile (i : entry_input) : bool :=
   | EUnmarshal _ _ => true
   | EConnect _ => true
   | EE2EInbound _ cls | EE2EOutbound _ cls => e2e_fails cls
+  | EE2EStress _ => true
   end.
